@@ -85,6 +85,7 @@ func (c *Config) Merge(from interface{}, options ...Option) error {
 }
 
 func mergeConfig(opts *options, to, from *Config) Error {
+	defer detachReplaced(to, from, subConfigsOf(to))
 	if to.fields == nil {
 		// the zero value of Config (a Config not created by New)
 		to.fields = &fields{}
@@ -93,6 +94,42 @@ func mergeConfig(opts *options, to, from *Config) Error {
 		return err
 	}
 	return mergeConfigArr(opts, to, from)
+}
+
+// subConfigsOf lists the sub-configs stored directly in c.
+func subConfigsOf(c *Config) []*Config {
+	var subs []*Config
+	for _, v := range c.fields.dict() {
+		if sub, ok := v.(cfgSub); ok {
+			subs = append(subs, sub.c)
+		}
+	}
+	for _, v := range c.fields.array() {
+		if sub, ok := v.(cfgSub); ok {
+			subs = append(subs, sub.c)
+		}
+	}
+	return subs
+}
+
+// detachReplaced resets the context of the sub-configs that were stored in to
+// before a merge and are not any more: Merge installs copies, so they no longer
+// belong to this config. Path and Parent must not report the old place, and
+// they get their new place when they are attached again (see fields.del). The
+// source of the merge is never touched.
+func detachReplaced(to, from *Config, before []*Config) {
+	if len(before) == 0 {
+		return
+	}
+	still := map[*Config]bool{}
+	for _, sub := range subConfigsOf(to) {
+		still[sub] = true
+	}
+	for _, sub := range before {
+		if !still[sub] && sub != from {
+			sub.ctx = context{}
+		}
+	}
 }
 
 func mergeConfigDict(opts *options, to, from *Config) Error {
